@@ -12,15 +12,16 @@ export TMPDIR=/dev/shm/tmp-$ID; mkdir -p $TMPDIR
 git -C /repo worktree remove --force $WT >/dev/null 2>&1
 git -C /repo worktree add -q --detach $WT HEAD || { echo "worktree failed" >> $OUT; exit 2; }
 cd $WT
-cp $SRC/demo_test.go $WT/zz_seed_demo_test.go
+DEMO_DIR=${DEMO_DIR:-.}
+cp $SRC/demo_test.go $WT/$DEMO_DIR/zz_seed_demo_test.go
 echo "== demo on unmodified HEAD" >> $OUT
-if go test -vet=off -count=1 -timeout 10m -run "$RUN" . >> $OUT 2>&1; then echo "RESULT demo_unmodified=pass" >> $OUT; else echo "RESULT demo_unmodified=FAIL" >> $OUT; fi
+if go test -vet=off -count=1 -timeout 10m -run "$RUN" ./$DEMO_DIR >> $OUT 2>&1; then echo "RESULT demo_unmodified=pass" >> $OUT; else echo "RESULT demo_unmodified=FAIL" >> $OUT; fi
 if git apply $SRC/patch.diff >> $OUT 2>&1; then echo "RESULT apply=ok" >> $OUT; else echo "RESULT apply=FAIL" >> $OUT; fi
 go build ./... >> $OUT 2>&1 && echo "RESULT build=ok" >> $OUT || echo "RESULT build=FAIL" >> $OUT
 echo "== demo with patch" >> $OUT
-if go test -vet=off -count=1 -timeout 10m -run "$RUN" . >> $OUT 2>&1; then echo "RESULT demo_patched=pass" >> $OUT; else echo "RESULT demo_patched=fail(expected)" >> $OUT; fi
+if go test -vet=off -count=1 -timeout 10m -run "$RUN" ./$DEMO_DIR >> $OUT 2>&1; then echo "RESULT demo_patched=pass" >> $OUT; else echo "RESULT demo_patched=fail(expected)" >> $OUT; fi
 if [ -z "$NOSUITE" ]; then
-  rm -f $WT/zz_seed_demo_test.go
+  rm -f $WT/$DEMO_DIR/zz_seed_demo_test.go
   echo "== full suite with patch" >> $OUT
   go test -vet=off -count=1 -timeout 40m ./... > $OUT.suite 2>&1
   grep -E "^(ok|FAIL|---|panic)" $OUT.suite >> $OUT
